@@ -148,6 +148,50 @@ def oracle(sc, tr, extra):
     return out
 
 
+# ---------------------------------------------------------------- failing writes
+def fault_scenarios(rnd, n):
+    """a few sends, one of which hits a failing sendall (reset, interrupted call, broken pipe, full buffer, ... in turn)"""
+    scs = []
+    for i in range(n):
+        k = rnd.choice([2, 3, 4, 5])
+        acts = []
+        for _ in range(k):
+            r = rnd.random()
+            if r < 0.4:
+                acts.append(("text", scen.rand_text(rnd, rnd.choice([0, 5, 130, 70000])), True))
+            elif r < 0.7:
+                acts.append(("binary", scen.rand_bytes(rnd, rnd.choice([0, 1, 126, 300])), True))
+            elif r < 0.85:
+                acts.append(("ping", scen.rand_bytes(rnd, rnd.choice([0, 4, 125]))))
+            else:
+                acts.append(("pong", scen.rand_bytes(rnd, rnd.choice([0, 4, 125]))))
+        j = rnd.randrange(0, k)
+        sc = _sc(acts, scen.keys(rnd, k + 1))
+        sc["wfaults"] = ["ok"] * (1 + j) + [rnd.choice(["oserr", "oserr", "exc"])] + (["oserr"] if rnd.random() < 0.3 else [])
+        sc["_fault_at"] = j
+        scs.append(sc)
+    return scs
+
+
+def fault_oracle(sc, tr, extra):
+    if extra.get("escaped"):
+        return ["exception %s escaped the iterator" % extra["escaped"]]
+    out = []
+    tl = fam.timeline(sc, tr)
+    attempts = 0
+    seen_ready = False
+    for x in tl:
+        if x["kind"] == "ev" and x["code"] == 4:
+            seen_ready = True
+        elif x["kind"] == "write" and seen_ready:
+            attempts += 1
+        elif x["kind"] == "call":
+            if attempts > 1:
+                out.append("one %s call made %d sendall attempts: after a failed (possibly partial) write the same bytes were written again" % (x["action"][0] if x["action"] else "api", attempts))
+            attempts = 0
+    return out[:2]
+
+
 # ---------------------------------------------------------------- argument types (implementation side only)
 def type_family(rep):
     from . import simnet as S
@@ -299,6 +343,9 @@ def run(rep, info, model, tier, seed):
             rep.count("len_class", "<126" if n < 126 else ("<65536" if n < 65536 else ">=65536"))
     fam.run_family(rep, model, "C03:api-calls", scs, oracle, project=fam.no_waits,
                    rule="accepted and refused calls of send_text/send_binary/send_ping/send_pong/close on a ready websocket: every payload length 0..300 and 65500..65600 (thorough: more, up to 2^20), control payloads 0..130, close codes x reason lengths {0,1,122,123,124,200}, all byte values, all 17 Unicode planes, random and special masking keys; every sendall is decoded by the harness' own RFC 6455 decoder (FIN, MASK, key, minimal length, RSV, opcode, unmasked payload) and compared byte-for-byte with the model's Frame.build")
+    fscs = fault_scenarios(rnd, 150 if tier == "quick" else 3000)
+    fam.run_family(rep, model, "C03:failing-writes", fscs, fault_oracle, project=fam.no_waits,
+                   rule="2-5 sends with one or two failing sendall calls (connection reset, EINTR, EPIPE, EAGAIN, arbitrary exceptions, error texts with format characters): the failing call raises and writes nothing more, the other calls write exactly their frame; results and bytes compared with the model")
     type_family(rep)
     xor_table(rep)
     if not proof_ok and not rep.violations:
